@@ -42,6 +42,7 @@ open Charset
 #print axioms C04_valid_utf8_nonempty
 #print axioms C04_valid_utf8_current
 #print axioms C04_valid_utf8_full
+#print axioms C04_threshold_full
 #print axioms detection_full_verdicts
 #print axioms probe_utf8_valid
 #print axioms C04_threshold
